@@ -282,6 +282,16 @@ func (bc *BlockChain) SetHead(head uint64) error {
 
 	// Rewind the header chain, deleting all block bodies until then
 	delFn := func(hash common.Hash, num uint64) {
+		// drop the transaction lookup entries and receipts of the rewound block
+		// too, or its transactions keep resolving after the rewind
+		if body := GetBodyNoVersion(bc.db, hash, num); body != nil {
+			for _, tx := range body.Transactions {
+				if bh, _, _ := GetTxLookupEntry(bc.db, tx.Hash()); bh == hash {
+					DeleteTxLookupEntry(bc.db, tx.Hash())
+				}
+			}
+		}
+		DeleteBlockReceipts(bc.db, hash, num)
 		DeleteBody(bc.db, hash, num)
 	}
 	bc.hc.SetHead(head, delFn)
